@@ -82,6 +82,8 @@ def corpus_stats(summ):
             by_rule[k] = by_rule.get(k, 0) + n
     unparsed = {}
     for r in res:
+        if r.get('large'):
+            continue
         for u in r.get('unparsed') or []:
             k = ':'.join(u.split(':')[:2])
             unparsed[k] = unparsed.get(k, 0) + 1
@@ -92,14 +94,18 @@ def corpus_stats(summ):
     n_unparsed = sum(unparsed.values())
     oracle = {}
     for r in res:
+        if r.get('large'):
+            continue
         for k, n in (r.get('oracle') or {}).items():
             oracle[k] = oracle.get(k, 0) + n
     return {
         'corpus_counts': summ['counts'],
-        'modules_submitted': sum(r.get('n', 0) for r in res),
+        'modules_submitted': sum(r.get('n', 0) for r in res if not r.get('large')),
         'modules_outside_domain_unparseable': n_unparsed,
         'unparseable_by_source': unparsed,
-        'modules_linted': sum(r.get('n', 0) for r in res) - n_unparsed,
+        # the modules of the large single-call runs are counted apart (two thirds of some are modules of the ordinary batches)
+        'modules_linted': sum(r.get('n', 0) for r in res if not r.get('large')) - n_unparsed,
+        'large_single_call_runs': [{'modules': r.get('n', 0), 'lint_calls': r.get('lints', 0), 'ms': r.get('ms')} for r in res if r.get('large')],
         'lint_calls': sum(r.get('lints', 0) for r in res),
         'violations_reported': sum(r.get('violations', 0) for r in res),
         'distinct_rules_reporting': len(by_rule),
